@@ -250,8 +250,7 @@ def _has_escape_or_comment(line, lang):
 
 def _fp_d19(inp):
     """D19: the shlex-based lexer only recognises a quote at the start of a blank-separated word, so
-    f(a,'b c') is cut inside the string.  Narrow: (1) clause is tokens / string-split / python-ast /
-    continuation-free, (2) the line has a quoted string with a blank whose opening quote follows a
+    f(a,'b c') is cut inside the string.  Narrow: (1) clause is tokens / string-split / python-ast, (2) the line has a quoted string with a blank whose opening quote follows a
     non-blank, and no escapes or comments, (3) shlex really returns a word with an unbalanced quote,
     (4) the same line with a blank put in front of each such quote does not fail that clause."""
     clause = inp.get("clause")
